@@ -64,7 +64,7 @@ def build_corpus(rep, seed, n_grammars, max_units, bits_share=0.15, bytes_share=
         if gen.count_derivations(g, 8 if g["flavour"] == "bits" else max_units) > 2500:
             continue        # keeps the exhaustive enumeration of the corpus small (a corpus choice, not an oracle)
         grammars[gid] = g
-    for g in (extra or []):
+    for g in (extra or []) + (mixed_grammars() if bytes_share > 0 else []):
         gid += 1
         grammars[gid] = g
     # grammars in which a named empty-deriving symbol is expected at several places (same input position included)
@@ -127,6 +127,17 @@ def build_corpus(rep, seed, n_grammars, max_units, bits_share=0.15, bytes_share=
                         inside.append(ws)
         cases.append({"gid": k, "g": g, "spec": gen.render(g), "enum": e, "inside": inside, "outside": outside})
     return cases
+
+
+def mixed_grammars():
+    """binary grammars with a bytes regex that also derive words made of text literals only: such a word is a word in both
+    spellings, and both are parsed by one spec object"""
+    T, B, R = gen.lit_text, gen.lit_bytes, lambda lo, hi: gen.regex([(list(b"AB"), lo, hi)], kind="bytes")
+    bodies = [gen.alt(T("a"), R(1, 2)),
+              gen.cat(gen.alt(T("xy"), B(b"\x01")), gen.alt(T("0"), R(1, 2))),
+              gen.alt(gen.cat(T("a"), T("b")), gen.cat(R(1, 1), B(b"\x00"))),
+              gen.cat(gen.rep(T("c"), 0, 2), gen.alt(R(1, 2), T("d")))]
+    return [{"start": "<start>", "rules": {"<start>": b}, "flavour": "bytes", "computed": 0} for b in bodies]
 
 
 def _regex_nodes(g):
